@@ -74,6 +74,50 @@ def check_accumulate(ctx: Ctx, f: Func, rule: str) -> int:
     return n
 
 
+def check_growing_prefix(ctx: Ctx, f: Func, rule: str) -> int:
+    """`acc = []`, `for part in S: acc.append(part); ... ".".join(acc) ...`: every non-empty prefix of S, by construction - provided S is the whole
+    sequence of parts (not a slice), the list starts empty and the loop variable is appended once, first thing in the body, at every iteration"""
+    rep = ctx.report
+    n = 0
+    for loop in [x for x in f.own_nodes() if isinstance(x, ast.For) and isinstance(x.target, ast.Name)]:
+        part = loop.target.id
+        appends = [c for st in loop.body for c in ast.walk(st) if isinstance(c, ast.Call) and isinstance(c.func, ast.Attribute) and c.func.attr == "append"
+                   and isinstance(c.func.value, ast.Name) and len(c.args) == 1 and isinstance(c.args[0], ast.Name) and c.args[0].id == part]
+        if not appends:
+            continue
+        acc = appends[0].func.value.id  # type: ignore
+        joins = [c for st in loop.body for c in ast.walk(st) if isinstance(c, ast.Call) and isinstance(c.func, ast.Attribute) and c.func.attr == "join" and c.args
+                 and isinstance(c.args[0], ast.Name) and c.args[0].id == acc]
+        if not joins:
+            continue
+        n += 1
+        S = loop.iter
+        desc = f"`{unparse(joins[0], 50)}` over the growing list `{acc}` enumerates every non-empty prefix of {unparse(S, 40)}"
+        wit = []
+        if isinstance(S, ast.Subscript):
+            wit.append(f"{f.loc(loop)}: only the slice `{unparse(S)}` of the parts is enumerated")
+        first = loop.body[0]
+        if not (isinstance(first, ast.Expr) and first.value is appends[0]):
+            wit.append(f"{f.loc(appends[0])}: the part is not appended first thing at every iteration")
+        others = [x for x in f.own_nodes() if isinstance(x, ast.Call) and isinstance(x.func, ast.Attribute) and isinstance(x.func.value, ast.Name) and x.func.value.id == acc
+                  and x.func.attr in ("append", "extend", "insert", "pop", "remove", "clear", "reverse", "sort") and x is not appends[0]]
+        stores = [x for x in f.own_nodes() if isinstance(x, (ast.Assign, ast.AnnAssign, ast.AugAssign)) and any(
+            isinstance(t, ast.Name) and t.id == acc for t in (x.targets if isinstance(x, ast.Assign) else [x.target]))]
+        if others or len(stores) != 1 or any(st is x for st in ast.walk(loop) for x in stores):
+            wit.append(f"{f.loc(loop)}: `{acc}` is changed elsewhere than by the one append of the loop")
+        else:
+            v0 = stores[0].value
+            empty = (isinstance(v0, ast.List) and not v0.elts) or (isinstance(v0, ast.Call) and unparse(v0.func) == "list" and not v0.args)
+            if not empty:
+                wit.append(f"{f.loc(stores[0])}: `{acc}` does not start empty")
+        if wit:
+            rep.bad(rule, f.qname, desc, f.loc(loop), wit + ["the prefixes compared with the accepted packages are not all the dotted prefixes of the module path: an object of an accepted "
+                    "module is tracked by name only and its edits are not seen"], "prefix-growing", what="the prefixes compared with the accepted packages are not the dotted prefixes of the path")
+        else:
+            rep.ok(rule, f.qname, desc, f.loc(loop))
+    return n
+
+
 def check_prefix_loop(ctx: Ctx, f: Func, loop: ast.For, rule: str, required: bool) -> int:
     """index-domain lint for `for i in range(...)`: slices S[:i(+k)] inside the body must range over len(S)"""
     rep = ctx.report
@@ -166,6 +210,8 @@ def run(ctx: Ctx) -> None:
                             n1 += check_prefix_loop(ctx, g_, fake, "C14.R1", True)
     if n1 == 0:
         n1 += check_accumulate(ctx, auth, "C14.R1")
+    if n1 == 0:
+        n1 += check_growing_prefix(ctx, auth, "C14.R1")
     if n1 == 0:
         rep.unknown("C14.R1", auth.qname, "prefix enumeration idiom not recognised in the authorisation test", auth.loc())
     if ctx.tier == "thorough":
